@@ -33,7 +33,9 @@ class Monitor:
     def witness(self, prop: str, key: str, detail, replay=None):
         with self.lock:
             self.counts["witness:" + key] += 1
-            if len(self.witnesses) < self.max_witnesses:
+            # the cap is per property: contracts of other properties fire in the same process, and what they collect
+            # (nobody may take it) must never crowd out the witnesses of the check that is running
+            if sum(1 for w in self.witnesses if w["prop"] == prop) < self.max_witnesses:
                 self.witnesses.append({"prop": prop, "key": key, "detail": detail, "replay": replay})
 
     def take(self, prop: str) -> list[dict]:
